@@ -161,6 +161,23 @@ fn boundary_loops(boundary_map: HashMap<u32, u32>) -> Vec<Vec<u32>> {
     all_loops
 }
 
+/// Adds the directed boundary edge `edge` to the boundary successor map (first vertex -> second
+/// vertex) and records its second vertex in the set of boundary edge ends. Returns `false`, and
+/// changes nothing, if another boundary edge already leaves the first vertex or already enters the
+/// second one, in which case the boundary edges do not form closed loops.
+fn add_boundary_edge(
+    boundary_map: &mut HashMap<u32, u32>,
+    boundary_ends: &mut HashSet<u32>,
+    edge: &[u32; 2],
+) -> bool {
+    if boundary_map.contains_key(&edge[0]) || boundary_ends.contains(&edge[1]) {
+        return false;
+    }
+    boundary_map.insert(edge[0], edge[1]);
+    boundary_ends.insert(edge[1]);
+    true
+}
+
 fn identify_edges(faces: &[[u32; 3]]) -> Result<(Vec<[u32; 2]>, Vec<[u32; 3]>, Vec<Vec<u32>>)> {
     // The direct edges are the edges that are directly defined by the faces, kept in the same
     // order as they are defined in the faces.
@@ -184,8 +201,11 @@ fn identify_edges(faces: &[[u32; 3]]) -> Result<(Vec<[u32; 2]>, Vec<[u32; 3]>, V
         .map(|(i, (edge, _))| (*edge, i))
         .collect();
 
-    // Let's remap the face edges to the unique edges and build the boundary map at the same time
+    // Let's remap the face edges to the unique edges and build the boundary map at the same time.
+    // The boundary map sends the first vertex of every directed boundary edge to its second vertex
     let mut boundary_map = HashMap::new();
+    let mut boundary_ends = HashSet::new();
+    let mut boundary_ok = true;
     let mut face_edges = Vec::new();
     for face_chunk in direct_edges.chunks(3) {
         let i0 = to_unique_index[&edge_key(&face_chunk[0])];
@@ -194,14 +214,27 @@ fn identify_edges(faces: &[[u32; 3]]) -> Result<(Vec<[u32; 2]>, Vec<[u32; 3]>, V
         face_edges.push([i0 as u32, i1 as u32, i2 as u32]);
 
         if unique_edge_count[i0].1 == 1 {
-            boundary_map.insert(face_chunk[0][0], face_chunk[0][1]);
+            boundary_ok = add_boundary_edge(&mut boundary_map, &mut boundary_ends, &face_chunk[0])
+                && boundary_ok;
         }
         if unique_edge_count[i1].1 == 1 {
-            boundary_map.insert(face_chunk[1][0], face_chunk[1][1]);
+            boundary_ok = add_boundary_edge(&mut boundary_map, &mut boundary_ends, &face_chunk[1])
+                && boundary_ok;
         }
         if unique_edge_count[i2].1 == 1 {
-            boundary_map.insert(face_chunk[2][0], face_chunk[2][1]);
+            boundary_ok = add_boundary_edge(&mut boundary_map, &mut boundary_ends, &face_chunk[2])
+                && boundary_ok;
         }
+    }
+
+    // The boundary loops can only be walked if the boundary map is a bijection of the boundary
+    // vertices: every boundary vertex is left by exactly one boundary edge and entered by exactly
+    // one. Faces which touch at a single vertex only, or neighboring faces with opposite winding
+    // along the boundary, break this, and the loop walk would never end (or hit a missing key)
+    if !boundary_ok || !boundary_ends.iter().all(|v| boundary_map.contains_key(v)) {
+        return Err(
+            "Non-manifold boundary detected (boundary edges do not form closed loops)".into(),
+        );
     }
 
     let loops = boundary_loops(boundary_map);
